@@ -330,6 +330,12 @@ impl NestedTrieDawg {
 
     /// Insert a single key into the trie structure
     fn insert_key(&mut self, key: &[u8]) -> Result<()> {
+        // An automaton that has never been built has no root yet (Trie::insert on a fresh
+        // instance would otherwise hand out state 0 to the first child and loop on the root)
+        if self.states.is_empty() {
+            self.root_state = self.add_state(0, false, false)?;
+        }
+
         let mut current_state = self.root_state;
 
         // Traverse/create path for the key
